@@ -134,6 +134,15 @@ impl Net {
             wake(&mut s.tx_waker);
         }
     }
+    /// set the write credit of `id` to exactly `n` (the stream becomes credit-limited)
+    pub fn set_write_credit(&mut self, id: u64, n: usize) {
+        if let Some(s) = self.streams.get_mut(&id) {
+            s.tx_credit = n;
+            if n > 0 {
+                wake(&mut s.tx_waker);
+            }
+        }
+    }
     pub fn grant_streams(&mut self, uni: usize, bidi: usize) {
         if self.uni_credit != UNLIMITED {
             self.uni_credit += uni;
